@@ -16,7 +16,12 @@ TECHNIQUE = ('pyvc contracts on the real name policy (_validate_name with '
              'expression-side name); library-wide sink obligation over the '
              'ASTs of all registered payloads; regex-language emptiness for '
              'dunder keywords (z3)')
-LEVEL_TEXT = ('Policy: _validate_name returns normally iff the name has no '
+LEVEL_TEXT = ('Settings: build_yaqlization_settings puts into the blacklist '
+              'exactly the host\'s entries plus the target of every '
+              'remapping (plain or (name, argument-mapping) form), for an '
+              'arbitrary probe value x; indexation validates ANY key before '
+              'the host access and a non-string key never validates. '
+              'Policy: _validate_name returns normally iff the name has no '
               'leading underscore and (whitelist non-empty and some entry '
               'matches, or whitelist empty and no blacklist entry matches), '
               'for all names, all settings and every iteration order; a '
@@ -116,4 +121,6 @@ def units(ctx):
            for c in yaqlized.contracts()]
     us += [contract_unit(c, world_setup=yaqlized.setup_sinks)
            for c in yaqlized.sink_contracts()]
+    us += [contract_unit(c, world_setup=yaqlized.setup_settings)
+           for c in yaqlized.settings_contracts()]
     return us
